@@ -552,6 +552,8 @@ func (s *persistentHybridSearch) Execute() ([]HybridSearchResult, error) {
 			wg.Add(1)
 			go func(segment *segmentMetadata) {
 				defer wg.Done()
+				verifPoint("segsearch.begin", segment.id)
+				defer verifPoint("segsearch.end", segment.id)
 
 				// Load segment index
 				idx, err := segment.getIndex(
@@ -670,6 +672,7 @@ func (s *PersistentHybridIndex) flushMemtables() error {
 		if err := s.flushMemtable(mt); err != nil {
 			return fmt.Errorf("failed to flush memtable: %w", err)
 		}
+		verifPoint("flush.before_drop")
 
 		// Remove from queue
 		s.memtableQueue.remove(mt)
@@ -696,6 +699,7 @@ func (s *PersistentHybridIndex) flushMemtable(mt *memtable) error {
 		return fmt.Errorf("failed to create hybrid file: %w", err)
 	}
 	defer hybridFile.Close()
+	verifPoint("flush.created", segmentID, 0)
 
 	hybridGz := gzip.NewWriter(hybridFile)
 	defer hybridGz.Close()
@@ -710,6 +714,7 @@ func (s *PersistentHybridIndex) flushMemtable(mt *memtable) error {
 			return fmt.Errorf("failed to create vector file: %w", err)
 		}
 		defer vectorFile.Close()
+		verifPoint("flush.created", segmentID, 1)
 
 		vectorGz = gzip.NewWriter(vectorFile)
 		defer vectorGz.Close()
@@ -722,6 +727,7 @@ func (s *PersistentHybridIndex) flushMemtable(mt *memtable) error {
 			return fmt.Errorf("failed to create text file: %w", err)
 		}
 		defer textFile.Close()
+		verifPoint("flush.created", segmentID, 2)
 
 		textGz = gzip.NewWriter(textFile)
 		defer textGz.Close()
@@ -734,6 +740,7 @@ func (s *PersistentHybridIndex) flushMemtable(mt *memtable) error {
 			return fmt.Errorf("failed to create metadata file: %w", err)
 		}
 		defer metadataFile.Close()
+		verifPoint("flush.created", segmentID, 3)
 
 		metadataGz = gzip.NewWriter(metadataFile)
 		defer metadataGz.Close()
@@ -766,6 +773,7 @@ func (s *PersistentHybridIndex) flushMemtable(mt *memtable) error {
 		metadataGz.Close()
 	}
 	hybridGz.Close()
+	verifPoint("flush.closed", segmentID)
 
 	// Get file sizes
 	var totalSize int64
@@ -793,7 +801,9 @@ func (s *PersistentHybridIndex) flushMemtable(mt *memtable) error {
 	segment.updateStats(mt.count(), totalSize)
 
 	// Add to segment manager
+	verifPoint("flush.before_register", segmentID)
 	s.segmentManager.add(segment)
+	verifPoint("flush.registered", segmentID)
 
 	return nil
 }
